@@ -215,3 +215,130 @@ def corr_visit(model, r, n_gen, n_files):
                  tag=("corpus" if label != "gen" else "gen") + (":clean" if nv == 0 else ":violations"),
                  sample={"source": (src[:160] if label == "gen" else label), "violations": nv})
     return acc.result()
+
+
+# ---------------------------------------------------------------- analyze_python_file (Model/PyFile.lean)
+
+COOKIE_LINES = [
+    "# -*- coding: utf-8 -*-", "# coding: latin-1", "#coding=utf-7", "# vim: set fileencoding=cp1252 :", "#!/usr/bin/python", "# coding:", "# coding: ", "# coding:\tUTF_8",
+    "  \t# coding=US-ASCII", "\x0c# coding: utf8", "x = 1  # coding: latin-1", "# decoding: x coding: utf-16", "# coding: -", "# coding=İso", "# coding : latin-1", "# coding:latin_1 extra",
+    "# -*- coding: utf-8-sig -*-", "#", "", "# coding:: utf-16 coding: ascii", "# Coding: latin-1", "# coding: ＵＴＦ-8", "# coding:.", "# coding: utf-8\r",
+]
+BODIES = [
+    "import json\nprint(json.dumps(1))\n", "import os\nos.system('id')\n", "x = (\n", "import json, math\nfrom collections import OrderedDict\n", "from . import x\n", "print(1)\n", "",
+    "import json.decoder\nimport xml.etree.ElementTree as ET\n", "def f():\n    import random\n    return random.random()\n", "x = eval('1')\n", "import calendar\ncalendar.sys\n",
+]
+
+
+def record_facts(path):
+    import pathlib
+
+    p = pathlib.Path(path)
+    facts = {"exists": p.exists(), "is_file": p.is_file(), "suffix": p.suffix, "size": None, "source": None, "tree": None, "shadowed": []}
+    try:
+        facts["size"] = p.stat().st_size
+    except OSError:
+        pass
+    try:
+        facts["source"] = p.read_text(encoding="utf-8")
+    except (OSError, UnicodeDecodeError):
+        pass
+    if facts["source"] is not None:
+        try:
+            tree = ast.parse(facts["source"])
+            facts["tree"] = ser(tree)
+            roots = set()
+            for node in ast.walk(tree):
+                if isinstance(node, ast.Import):
+                    roots |= {a.name.split(".")[0] for a in node.names}
+                elif isinstance(node, ast.ImportFrom) and node.module:
+                    roots.add(node.module.split(".")[0])
+            for root in sorted(roots):
+                try:
+                    sh = (p.parent / f"{root}.py").exists() or (p.parent / root).is_dir()
+                except OSError:
+                    sh = True
+                facts["shadowed"].append([root, sh])
+        except (SyntaxError, ValueError, RecursionError):
+            pass
+    return facts
+
+
+def reason_class(reason: str, facts) -> str:
+    for pre in ("file not found", "not a file", "cannot stat file", "cannot read file", "syntax"):
+        if reason.startswith(pre):
+            return pre
+    if reason.startswith("local module shadows import: "):
+        root = reason.split(": ", 1)[1]
+        return "local module shadows import: <" + ("a shadowed root" if [root, True] in facts["shadowed"] else "NOT SHADOWED " + root) + ">"
+    return reason
+
+
+def corr_pyfile(model, r, n):
+    import shutil
+    import tempfile
+
+    import dippy.cli.python as P
+
+    acc = Acc("analyze_python_file vs PyFile.analyzeFile (recorded file facts)")
+    root = os.path.realpath(tempfile.mkdtemp(prefix="dippy-verif-pyfile-"))
+    try:
+        items = []
+        for i in range(n):
+            d = os.path.join(root, "d%d" % i)
+            os.makedirs(d)
+            name = r.pick(["s.py", "s.py", "s.py", "s.pyw", "s.txt", "s.PY", "s", "s.py.bak", ".py", "a.b.py"])
+            path = os.path.join(d, name)
+            kind = r.pick(["text", "text", "text", "text", "missing", "dir", "big", "badutf8", "latin1bytes", "symlink", "dangling"])
+            lines = []
+            for _ in range(r.randint(0, 2)):
+                lines.append(r.pick(COOKIE_LINES) if r.chance(0.6) else r.pick(["#!/usr/bin/env python3", "'''doc'''", "", "import math"]))
+            text = "\n".join(lines + [r.pick(BODIES)])
+            if kind == "text":
+                open(path, "w", encoding="utf-8", newline="").write(text)
+            elif kind == "dir":
+                os.makedirs(path)
+            elif kind == "big":
+                # sizes around the 100000-byte limit; one long comment keeps the tree small
+                open(path, "w").write("x = 1\n" + "#" * (100_000 - 6 + r.pick([-1, 0, 1, 2, 5000])))
+            elif kind == "badutf8":
+                open(path, "wb").write(b"# coding: latin-1\nx = '\xe9'\n")
+            elif kind == "latin1bytes":
+                open(path, "wb").write(b"x = 1\n\xff\xfe\n")
+            elif kind == "symlink":
+                tgt = os.path.join(d, "target.py")
+                open(tgt, "w").write(text)
+                os.symlink(tgt, path)
+            elif kind == "dangling":
+                os.symlink(os.path.join(d, "nothing"), path)
+            # siblings that may shadow an import
+            for sib in r.sample(["json.py", "math.py", "json", "collections", "random.py", "calendar", "xml.py", "os.py"], r.randint(0, 2)):
+                sp = os.path.join(d, sib)
+                if not os.path.lexists(sp):
+                    if sib.endswith(".py"):
+                        open(sp, "w").write("")
+                    else:
+                        os.makedirs(sp)
+            items.append((kind, path))
+        reqs, keep = [], []
+        import pathlib
+
+        for kind, path in items:
+            facts = record_facts(path)
+            try:
+                ok, reason = P.analyze_python_file(pathlib.Path(path))
+            except Exception as e:  # noqa: BLE001
+                ok, reason = None, "raised " + type(e).__name__
+            reqs.append({"op": "py_file", "facts": facts})
+            keep.append((kind, path, facts, ok, reason))
+        reps = model.batch(reqs)
+        for (kind, path, facts, ok, reason), rep in zip(keep, reps):
+            impl = {"safe": ok, "reason": reason_class(reason, facts) if ok is False else None}
+            got = rep
+            if isinstance(rep, dict) and "safe" in rep:
+                got = {"safe": rep["safe"], "reason": reason_class(rep.get("reason") or "", facts) if rep["safe"] is False else None}
+            acc.case([kind, os.path.basename(path), (facts["source"] or "")[:300], facts["shadowed"]], impl, got, nontrivial=facts["source"] is not None,
+                     tag=kind + ":" + ("safe" if ok else (impl["reason"] or "?").split(":")[0][:30]), sample={"kind": kind, "name": os.path.basename(path), "result": impl})
+    finally:
+        shutil.rmtree(root, ignore_errors=True)
+    return acc.result()
